@@ -41,5 +41,7 @@ def run(ck):
                 "two subscriptions of differing QoS (handover_sp/_messages/_pubrel/_dup/_ids/_resend_order/_incoming_qos2/_subscriptions), clean takeover "
                 "discards, a chain of five takeovers under traffic (takeover_nothing_lost), a retained QoS 1 will towards an offline subscriber; the four clean/persistent takeover combinations with session-present and offline delivery afterwards; "
                 "three takeovers separated by pauses longer than a 700 ms kill timeout (takeover_after_pause); "
+                "acknowledgements nobody asked for on the old connection (PUBACK / PUBCOMP for unknown ids, a PUBACK sent twice, PUBREC+PUBCOMP+PUBACK for an unknown id; "
+                "windows 1, 2, 3 and the default; clean and persistent), then QoS 0 deliveries to it, then two takeovers (exactly_one, old_closed, survivor_serves, will_once, not_stalled); "
                 "on every scenario's backend log: log_unique, log_will, log_lifecycle; the open known finding is replayed twice (old connection "
                 "blocked in a carrier write; kill timeout reached with a held-back Terminate, then two further CONNECTs)")
